@@ -100,7 +100,7 @@ void h_viol_span_sub(void) { VF_INPUT(unsigned char, n); VF_BUF(int, p, n, 6); V
 /*@GROUP name=viol_span_tmpl props=C05,C02 kind=K unwind=8 bound=len<=6@*/
 void h_viol_span_tmpl(void) { VF_INPUT(unsigned char, n); VF_BUF(int, p, n, 6); VF_INPUT(unsigned char, op); MKSD(s, p, n); int *d = 0; unsigned long m = 0;
   /* [span.sub]: first<C>/last<C>/subspan<O,C> on a dynamic-extent span require C <= size() resp. O <= size() && C <= size() - O */
-  VF_KNOWN(C05_span_tmpl_count_unchecked, op <= 5);
+  DEVKN(C05_span_tmpl_count_unchecked, op <= 5);
   EXPECT_VIOLATION_BUF(p, n); vf_sd_of = &s; vf_sd_snap = s;
   if (op == 0) { __CPROVER_assume(n < 2); sd_first_2(&s, &d, &m); }
   else if (op == 1) { __CPROVER_assume(n < 2); sd_last_2(&s, &d, &m); }
@@ -110,3 +110,184 @@ void h_viol_span_tmpl(void) { VF_INPUT(unsigned char, n); VF_BUF(int, p, n, 6); 
   else if (op == 5) { __CPROVER_assume(n < 4); sd_sub_4_0(&s, &d, &m); }
   else sd_first_n(&s, 7, &d, &m); /* control: the run-time count form is checked (keeps the handler reachable in this group) */
   VF_NORETURN_EXPECTED(); }
+
+/*@COMMON@*/
+/* ---- extents / layout mappings: one checker per pattern of patterns.def, selected by the symbolic input `which` --------------------
+ * A pattern is (R; S0,S1,S2) with Sk in {0,1,3,VD}; positions >= R are padded with the static extent 1 (neutral for every formula).
+ * State = the values of the dynamic extents (the struct holds exactly array<IT, rank_dynamic>), set DIRECTLY from symbolic inputs. */
+#define CAT_(a, b) a##b
+#define CAT(a, b) CAT_(a, b)
+#if VF_IT == 1
+typedef unsigned long IT;
+#define ITN unsignedlong
+#elif VF_IT == 2
+typedef unsigned char IT;
+#define ITN unsignedchar
+#else
+typedef int IT;
+#define ITN int
+#endif
+#define VD DYNV
+#define ETYPE(sfx) struct CAT(CAT(etl_extents_, ITN), sfx)
+#define DSFX_0
+#define DSFX_1 _18446744073709551615
+#define DSFX_2 _18446744073709551615_18446744073709551615
+#define DSFX_3 _18446744073709551615_18446744073709551615_18446744073709551615
+#define DETYPE(R) struct CAT(CAT(etl_extents_, ITN), DSFX_##R)
+#define OETYPE(R) struct CAT(etl_extents_long, DSFX_##R)
+enum {
+#define VP(name, R, A, B, C, sfx) IDX_##name,
+#include "patterns.def"
+#undef VP
+  NPAT };
+typedef struct { int r; unsigned long se[3]; } pat_t;
+static int p_nd(pat_t p) { int c = 0; for (int k = 0; k < 3; ++k) c += (k < p.r && p.se[k] == DYNV); return c; }
+static int p_dix(pat_t p, int k) { int c = 0; for (int q = 0; q < 3; ++q) c += (q < k && q < p.r && p.se[q] == DYNV); return c; }
+static _Bool p_mixed(pat_t p) { return p_nd(p) > 0 && p_nd(p) < p.r; }
+/* extent values: static extent or the symbolic value v[k] */
+static void p_vals(pat_t p, const IT *v, IT *ev) { for (int k = 0; k < 3; ++k) ev[k] = (k < p.r && p.se[k] == DYNV) ? v[k] : (IT)p.se[k]; }
+/* write / read the dynamic-extent storage (array<T, rank_dynamic> at offset 0 of the extents object) */
+#define P_SET(T, obj, p, ev) do { T *raw_ = (T *)(obj); for (int k_ = 0; k_ < 3; ++k_) if (k_ < (p).r && (p).se[k_] == DYNV) raw_[p_dix((p), k_)] = (T)(ev)[k_]; } while (0)
+static _Bool p_holds(pat_t p, const void *obj, const IT *ev) { const IT *raw = (const IT *)obj; _Bool ok = 1; for (int k = 0; k < 3; ++k) if (k < p.r && p.se[k] == DYNV) ok = ok && raw[p_dix(p, k)] == ev[k]; return ok; }
+static void p_pack(pat_t p, const IT *ev, IT *pv) { for (int k = 0; k < 3; ++k) pv[k] = 0; for (int k = 0; k < 3; ++k) if (k < p.r && p.se[k] == DYNV) pv[p_dix(p, k)] = ev[k]; }
+static const pat_t vf_pats[NPAT + 1] = {
+#define VP(name, R, A, B, C, sfx) {R, {A, B, C}},
+#include "patterns.def"
+#undef VP
+  {0, {1, 1, 1}} };
+/* witness-class predicates of the known findings (functions of the harness input `which`) */
+static _Bool w_mixed(unsigned char which) { return which < NPAT && p_mixed(vf_pats[which]); }
+static _Bool w_mixed_last_static(unsigned char which) { return w_mixed(which) && vf_pats[which].se[vf_pats[which].r - 1] != DYNV; }
+static _Bool w_static_nonzero(unsigned char which) { if (which >= NPAT) return 0; pat_t p = vf_pats[which]; _Bool r = 0; for (int k = 0; k < 3; ++k) r = r || (k < p.r && p.se[k] != DYNV && p.se[k] != 0); return r && p.r > 0; }
+/* development aid only: sed VF_KNOWN( -> DEVKN( to see what remains once the findings are listed */
+#define DEVKN(id, w) __CPROVER_assume(!(w))
+#define NONNEG(x) ((x) >= 0)
+#define SYM3(T, v) VF_INPUT_ARR(T, v, 3)
+
+#define CHK_EXT_OBS(name, R, A, B, C, sfx) \
+static void ext_obs_##name(const IT *v, const IT *w, const long *ow, unsigned long k) { const pat_t p = {R, {A, B, C}}; ETYPE(sfx) e, f; DETYPE(R) de; OETYPE(R) oe; IT ev[3], fv[3]; p_vals(p, v, ev); p_vals(p, w, fv); \
+  P_SET(IT, &e, p, ev); P_SET(IT, &f, p, fv); { const pat_t dp = {R, {DYNV, DYNV, DYNV}}; P_SET(IT, &de, dp, w); P_SET(long, &oe, dp, ow); } \
+  VF_ASSERT(name##_rank() == R && name##_rank_dynamic() == (unsigned long)p_nd(p), #name ": rank() and rank_dynamic()"); \
+  if (k < R) { VF_ASSERT(name##_static_extent(k) == p.se[k], #name ": static_extent(k)"); VF_ASSERT(name##_extent(&e, k) == ev[k], #name ": extent(k) is the static extent or the stored dynamic extent"); } \
+  { _Bool eq = 1, eqd = 1, eqo = 1; for (int q = 0; q < R; ++q) { eq = eq && ev[q] == fv[q]; eqd = eqd && ev[q] == w[q]; eqo = eqo && ow[q] >= 0 && (unsigned long)ow[q] == (unsigned long)ev[q]; } \
+    VF_ASSERT(name##_eq(&e, &f) == eq, #name ": operator== compares every extent"); VF_ASSERT(name##_eq_dex(&e, &de) == eqd, #name ": operator== against dextents<IT,R>"); \
+    VF_ASSERT(name##_eq_odex(&e, &oe) == eqo, #name ": operator== against dextents<long,R> compares values"); } }
+#define VP CHK_EXT_OBS
+#include "patterns.def"
+#undef VP
+
+/*@GROUP name=ext_obs props=C19,C02 kind=K unwind=5@*/
+void h_ext_obs(void) { VF_INPUT(unsigned char, which); SYM3(IT, v); SYM3(IT, w); SYM3(long, ow); VF_INPUT(unsigned char, k);
+  for (int q = 0; q < 3; ++q) __CPROVER_assume(NONNEG(v[q]) && NONNEG(w[q]) && ow[q] >= 0);
+#define VP(name, R, A, B, C, sfx) if (which == IDX_##name) ext_obs_##name(v, w, ow, k);
+#include "patterns.def"
+#undef VP
+  VF_REACH(); }
+
+/*@COMMON@*/
+#define CHK_EXT_CTOR(name, R, A, B, C, sfx) \
+static void ext_ctor_##name(const IT *v, unsigned char op) { const pat_t p = {R, {A, B, C}}; const pat_t dp = {R, {DYNV, DYNV, DYNV}}; ETYPE(sfx) e; DETYPE(R) de; OETYPE(R) oe; IT ev[3], pv[3]; long lv[3]; \
+  p_vals(p, v, ev); p_pack(p, ev, pv); for (int q = 0; q < 3; ++q) lv[q] = (long)ev[q]; \
+  { const pat_t z = {R, {A, B, C}}; IT junk[3] = {1, 1, 1}; P_SET(IT, &e, z, junk); } \
+  if (op == 0) { IT zv[3] = {0, 0, 0}, zev[3]; p_vals(p, zv, zev); name##_ctor_default(&e); VF_ASSERT(p_holds(p, &e, zev), #name ": extents(): every dynamic extent is 0"); } \
+  else if (op == 1) { name##_ctor_dyn(&e, pv); VF_ASSERT(p_holds(p, &e, ev), #name ": extents(dynamic extents...) stores them in order"); } \
+  else if (op == 2) { name##_ctor_all(&e, ev); VF_ASSERT(p_holds(p, &e, ev), #name ": extents(all extents...) keeps the values at the dynamic positions"); } \
+  else if (op == 3) { name##_ctor_arr_dyn(&e, pv); VF_ASSERT(p_holds(p, &e, ev), #name ": extents(array<IT, rank_dynamic>)"); } \
+  else if (op == 4) { name##_ctor_arr_all(&e, ev); VF_ASSERT(p_holds(p, &e, ev), #name ": extents(array<IT, rank>) keeps the values at the dynamic positions"); } \
+  else if (op == 5) { name##_ctor_span_dyn(&e, pv); VF_ASSERT(p_holds(p, &e, ev), #name ": extents(span<IT, rank_dynamic>)"); } \
+  else if (op == 6) { name##_ctor_span_all(&e, ev); VF_ASSERT(p_holds(p, &e, ev), #name ": extents(span<IT, rank>) keeps the values at the dynamic positions"); } \
+  else if (op == 7) { P_SET(IT, &de, dp, ev); name##_from_dex(&e, &de); VF_ASSERT(p_holds(p, &e, ev), #name ": extents(dextents<IT,R> const&) with matching static extents keeps every extent"); } \
+  else if (op == 8) { P_SET(IT, &e, p, ev); name##_to_dex(&de, &e); VF_ASSERT(p_holds(dp, &de, ev), #name ": dextents<IT,R>(extents const&) copies static and dynamic extents"); } \
+  else if (op == 9) { P_SET(long, &oe, dp, lv); name##_from_odex(&e, &oe); VF_ASSERT(p_holds(p, &e, ev), #name ": extents(dextents<long,R> const&) keeps every extent"); } \
+  else { P_SET(IT, &e, p, ev); name##_to_odex(&oe, &e); _Bool ok = 1; for (int q = 0; q < R; ++q) ok = ok && ((long *)&oe)[q] == lv[q]; VF_ASSERT(ok, #name ": dextents<long,R>(extents const&) copies static and dynamic extents"); } \
+  if (op != 0) for (int q = 0; q < R; ++q) VF_ASSERT(name##_extent(&e, q) == ev[q], #name ": extent(k) of the constructed / source object"); }
+#define VP CHK_EXT_CTOR
+#include "patterns.def"
+#undef VP
+
+/* known findings of the ext_ctor groups.
+ * C19_extents_ctor_all_mixed: extents.hpp:113-118: extents(span<T,N>) with N == rank() copies all N values into the rank_dynamic()-element array (out-of-bounds write, wrong slots).
+ * C19_extents_conv_wrong_side: extents.hpp:89: the converting constructor tests the SOURCE's static_extent(i): static source extents are dropped (left 0), own static positions are written. */
+
+/*@GROUP name=ext_ctor_r012 props=C19,C02 kind=K unwind=5 objbits=14@*/
+#define RSEL(R) (R <= 2)
+void h_ext_ctor_r012(void) { VF_INPUT(unsigned char, which); SYM3(IT, v); VF_INPUT(unsigned char, op); __CPROVER_assume(op <= 10); for (int q = 0; q < 3; ++q) __CPROVER_assume(NONNEG(v[q]) && (unsigned long)v[q] <= 0x7fffffffffffffffUL);
+  DEVKN(C19_extents_ctor_all_mixed, (op == 2 || op == 4 || op == 6) && w_mixed(which));
+  DEVKN(C19_extents_conv_wrong_side, ((op == 7 || op == 9) && w_mixed_last_static(which)) || ((op == 8 || op == 10) && w_static_nonzero(which)));
+#define VP(name, R, A, B, C, sfx) if (RSEL(R) && which == IDX_##name) ext_ctor_##name(v, op);
+#include "patterns.def"
+#undef VP
+  VF_REACH(); }
+
+/*@GROUP name=ext_ctor_r3 props=C19,C02 kind=K unwind=5 objbits=14@*/
+#define RSEL(R) (R == 3)
+void h_ext_ctor_r3(void) { VF_INPUT(unsigned char, which); SYM3(IT, v); VF_INPUT(unsigned char, op); __CPROVER_assume(op <= 10); for (int q = 0; q < 3; ++q) __CPROVER_assume(NONNEG(v[q]) && (unsigned long)v[q] <= 0x7fffffffffffffffUL);
+  DEVKN(C19_extents_ctor_all_mixed, (op == 2 || op == 4 || op == 6) && w_mixed(which));
+  DEVKN(C19_extents_conv_wrong_side, ((op == 7 || op == 9) && w_mixed_last_static(which)) || ((op == 8 || op == 10) && w_static_nonzero(which)));
+#define VP(name, R, A, B, C, sfx) if (RSEL(R) && which == IDX_##name) ext_ctor_##name(v, op);
+#include "patterns.def"
+#undef VP
+  VF_REACH(); }
+
+/*@COMMON@*/
+/* ---- layout_left / layout_right ------------------------------------------------------------------------------------------------------
+ * Reference (closed form, [mdspan.layout.left/right]): left: stride(k) = prod_{q<k} E_q, right: stride(k) = prod_{q>k} E_q, map(i) = sum i_k * stride(k),
+ * required_span_size = prod E_q.  Dynamic extents are symbolic in [0,4] (bounded: the products are non-linear), widened from 8-bit inputs. */
+#define MTYPE(L, sfx) struct CAT(CAT(CAT(etl_layout_, L), _mapping_etl_extents_), CAT(ITN, sfx))
+#define DMTYPE(L, R) struct CAT(CAT(CAT(etl_layout_, L), _mapping_etl_extents_), CAT(ITN, DSFX_##R))
+static void ref_strides_ll(const IT *ev, unsigned long *st) { st[0] = 1; st[1] = (unsigned long)ev[0]; st[2] = (unsigned long)ev[0] * (unsigned long)ev[1]; }
+static void ref_strides_lr(const IT *ev, unsigned long *st) { st[2] = 1; st[1] = (unsigned long)ev[2]; st[0] = (unsigned long)ev[1] * (unsigned long)ev[2]; }
+static unsigned long ref_size(const IT *ev) { return (unsigned long)ev[0] * (unsigned long)ev[1] * (unsigned long)ev[2]; }
+static unsigned long ref_map(const IT *ix, const unsigned long *st, int r) { unsigned long o = 0; for (int q = 0; q < 3; ++q) if (q < r) o += (unsigned long)ix[q] * st[q]; return o; }
+static _Bool in_range(const IT *ix, const IT *ev, int r) { _Bool ok = 1; for (int q = 0; q < 3; ++q) if (q < r) ok = ok && NONNEG(ix[q]) && ix[q] < ev[q]; return ok; }
+static _Bool differ(const IT *ix, const IT *jx, int r) { _Bool d = 0; for (int q = 0; q < 3; ++q) if (q < r) d = d || ix[q] != jx[q]; return d; }
+/* the multi-index that the closed form sends to offset o (o < size): witness for exhaustiveness; 8-bit arithmetic (size <= 64) */
+static void ref_inv_ll(const IT *ev, unsigned char o, IT *ix) { unsigned char e0 = (unsigned char)ev[0], e1 = (unsigned char)ev[1]; ix[0] = (IT)(o % e0); ix[1] = (IT)((o / e0) % e1); ix[2] = (IT)((o / e0) / e1); }
+static void ref_inv_lr(const IT *ev, unsigned char o, IT *ix) { unsigned char e2 = (unsigned char)ev[2], e1 = (unsigned char)ev[1]; ix[2] = (IT)(o % e2); ix[1] = (IT)((o / e2) % e1); ix[0] = (IT)((o / e2) / e1); }
+#define WIDEN3(dst, src) IT dst[3]; for (int q_ = 0; q_ < 3; ++q_) dst[q_] = (IT)src[q_]
+#define P_STATIC(R, A, B, C) ((R < 1 || A != DYNV) && (R < 2 || B != DYNV) && (R < 3 || C != DYNV))
+
+#define CHK_LAY(name, R, A, B, C, sfx, P, L) \
+static void lay_##P##_##name(const IT *v, const IT *ix, const IT *jx, unsigned char k, unsigned char off) { const pat_t p = {R, {A, B, C}}; MTYPE(L, sfx) m; IT ev[3], inv[3]; unsigned long st[3]; \
+  p_vals(p, v, ev); P_SET(IT, &m, p, ev); ref_strides_##P(ev, st); const unsigned long size = ref_size(ev); \
+  VF_ASSERT((const void *)name##_##P##_extents(&m) == (const void *)&m._extents, #name " " #L ": extents() refers to the stored extents"); \
+  VF_ASSERT((unsigned long)name##_##P##_rss(&m) == size, #name " " #L ": required_span_size() == product of the extents"); \
+  VF_ASSERT(name##_##P##_flags(&m) == 0x3f, #name " " #L ": is_(always_)unique/exhaustive/strided are all true"); \
+  if (k < R) VF_ASSERT((unsigned long)name##_##P##_stride(&m, k) == st[k], #name " " #L ": stride(k) == closed-form product"); \
+  if (R > 0 && in_range(ix, ev, R)) { IT o = name##_##P##_map(&m, ix); VF_ASSERT((unsigned long)o == ref_map(ix, st, R), #name " " #L ": map(i...) == closed form"); \
+    VF_ASSERT(NONNEG(o) && (unsigned long)o < size, #name " " #L ": 0 <= map(i...) < required_span_size()"); \
+    if (in_range(jx, ev, R) && differ(ix, jx, R)) VF_ASSERT(name##_##P##_map(&m, jx) != o, #name " " #L ": injective (is_unique): different in-range multi-indices map to different offsets"); } \
+  if (R > 0 && off < size) { ref_inv_##P(ev, off, inv); VF_ASSERT(in_range(inv, ev, R) && (unsigned long)name##_##P##_map(&m, inv) == off, #name " " #L ": exhaustive (is_exhaustive): every offset below required_span_size() is the image of an in-range multi-index"); } }
+#define VP(name, R, A, B, C, sfx) CHK_LAY(name, R, A, B, C, sfx, ll, left) CHK_LAY(name, R, A, B, C, sfx, lr, right)
+#include "patterns.def"
+#undef VP
+#define LAY_BODY(P) VF_INPUT(unsigned char, which); SYM3(unsigned char, dv); SYM3(unsigned char, di); SYM3(unsigned char, dj); VF_INPUT(unsigned char, k); VF_INPUT(unsigned char, off); \
+  for (int q = 0; q < 3; ++q) __CPROVER_assume(dv[q] <= 4 && di[q] <= 4 && dj[q] <= 4); WIDEN3(v, dv); WIDEN3(ix, di); WIDEN3(jx, dj);
+
+/*@GROUP name=left_static props=C19,C02 kind=K unwind=5 objbits=14@*/
+void h_left_static(void) { LAY_BODY(ll)
+#define VP(name, R, A, B, C, sfx) if (P_STATIC(R, A, B, C) && which == IDX_##name) lay_ll_##name(v, ix, jx, k, off);
+#include "patterns.def"
+#undef VP
+  VF_REACH(); }
+
+/*@GROUP name=left_dyn props=C19,C02 kind=B bound=extent<=4 unwind=5 objbits=14 solver=kissat@*/
+void h_left_dyn(void) { LAY_BODY(ll)
+#define VP(name, R, A, B, C, sfx) if (!P_STATIC(R, A, B, C) && which == IDX_##name) lay_ll_##name(v, ix, jx, k, off);
+#include "patterns.def"
+#undef VP
+  VF_REACH(); }
+
+/*@GROUP name=right_static props=C19,C02 kind=K unwind=5 objbits=14@*/
+void h_right_static(void) { LAY_BODY(lr)
+#define VP(name, R, A, B, C, sfx) if (P_STATIC(R, A, B, C) && which == IDX_##name) lay_lr_##name(v, ix, jx, k, off);
+#include "patterns.def"
+#undef VP
+  VF_REACH(); }
+
+/*@GROUP name=right_dyn props=C19,C02 kind=B bound=extent<=4 unwind=5 objbits=14 solver=kissat@*/
+void h_right_dyn(void) { LAY_BODY(lr)
+#define VP(name, R, A, B, C, sfx) if (!P_STATIC(R, A, B, C) && which == IDX_##name) lay_lr_##name(v, ix, jx, k, off);
+#include "patterns.def"
+#undef VP
+  VF_REACH(); }
